@@ -326,7 +326,7 @@ impl Sim {
                             liq_slip.to_decimal(),
                             None,
                             receiver.clone(),
-                            lock.as_ref().map(|l| l.duration),
+                            lock.as_ref().and_then(|l| l.dur()),
                             lock_id.clone(),
                         );
                         let single = deposits.len() == 1;
@@ -372,7 +372,7 @@ impl Sim {
                             liq_slip.to_decimal(),
                             swap_slip.to_decimal(),
                             receiver.clone(),
-                            lock.as_ref().map(|l| l.duration),
+                            lock.as_ref().and_then(|l| l.dur()),
                             lock_id.clone(),
                         );
                         (
